@@ -371,7 +371,13 @@ class C07(Check):
         rows_b = [0] + list(range(2, K + 3))
         out.cls('dummy_in_object_gap')
         self.note(out, spec, a)
-        self.same(out, 'dummy_surface_changes_nothing', a, b, rows=(rows_a, rows_b), at=0, frac=case['frac'])
+        # the first surface is met from the distance D in one description and from D/2 in the other: the root of the conic
+        # quadratic a t^2 + b t + c with b^2 ~ 4 a c ~ (a D)^2 carries eps a D^2 (a = |c| max(1, |1+k|))
+        amax = max([abs(1.0 / GL.fl(q['R'])) * max(1.0, abs(1.0 + q.get('k', 0.0))) for q in spec['surfs'][:1]
+                    if q['R'] != GL.INF] + [0.0])
+        sc = max(self.Lsc, 1e-5 * amax * float(t_obj) ** 2)
+        self.same(out, 'dummy_surface_changes_nothing', a, b, rows=(rows_a, rows_b), at=0, frac=case['frac'],
+                  scale=dict(x=sc, y=sc, z=sc, opd=sc))
         out.nt(any(r[0] != 0 for r in rays))
 
     def check_wavelength(self, case, out):
